@@ -233,3 +233,7 @@ func Catch(f func()) (panicked bool, val interface{}) {
 	f()
 	return false, nil
 }
+
+// NewRng: a generator with an explicit seed (added for the C17 harness, whose child processes and goroutines each need
+// their own deterministic stream).
+func NewRng(seed uint64) *Rng { return &Rng{s: seed*0x2545F4914F6CDD1D + 0x7654321} }
